@@ -49,7 +49,8 @@ CHECKS['C19'] = dict(
     text='Necessary structural condition decided for every path: no sign-constrained quantity is created or mutated '
          'without the constructor\'s sign check of exactly the stored/constructed term dominating it, no operator path '
          'returns None, no writer of the private fields exists outside __init__/to(), and every required component '
-         'parameter rejection dominates completion of construction. NaN/inf corner cases are not decided.',
+         'parameter rejection dominates completion of construction and is exactly the complement of the documented threshold '
+         '(the admissible boundary value is accepted). NaN/inf corner cases are not decided.',
     design='4/C19', engine='sa.sx + sa.facts')
 
 CHECKS['C09'] = dict(
@@ -82,7 +83,9 @@ CHECKS['C15'] = dict(
     text='Decides, for all rule parameters and states over the reals, the activity window (operators, inclusive ends) and '
          'the proposal formula of ConstantPWM/Timer, ReachAngularPosition (static error), StartProportionalToAngularPosition '
          '(minimum duty cycle, ramp, missing-parameter error) and StartLimitCurrent, and that the duty cycle StartLimitCurrent '
-         'proposes makes the motor\'s own current law yield exactly the limit current. Clipping and arbitration are C14.',
+         'proposes makes the motor\'s own current law yield exactly the limit current; the efficiency product runs over every '
+         'element class the relation functions admit as the slave of a mating with losses (worm gears included). Clipping and '
+         'arbitration are C14.',
     design='4/C15', engine='sa.sx + sa.loops + sa.match')
 
 SOLVER_T = 'solver IR: Solver.run inlined by abstract evaluation into an event structure over an abstract element array E[0..n-1] (loops as index sets affine in n, loop-carried recurrences, effect summaries of element/rule methods); '
@@ -166,7 +169,9 @@ CHECKS['C17'] = dict(
     technique='symbolic evaluation of every element class\'s constructor and recorder; advertise-vs-record conditions compared as '
               'exhaustive truth tables over optional-data atoms; guard-stability (who-may-write) of the data they read; '
               + SOLVER_T + 'one time append and one unconditional recorder loop over all elements per instant; compute-guard '
-              'implied by record-guard; setter kind checks; reset and export mapping completeness',
+              'implied by record-guard; setter kind checks, setters store their argument in their own field, forwarding clones '
+              'forward to their own property; fresh start = one instant + one record before stepping, continuation = none; reset '
+              'and export mapping completeness',
     text='For all six element classes and every subset of optional data: each advertised key receives exactly one sample per '
          'recorded instant, of the element\'s own attribute, whose setter enforces the kind; derived variables are computed whenever '
          'they are recorded; reset empties every list with a fresh list. Known finding: WormWheel bending stress depends on the '
@@ -175,12 +180,16 @@ CHECKS['C17'] = dict(
 CHECKS['C18'] = dict(
     technique='static unrolling of Powertrain.snapshot (constant zip lists, guarded work lists) into its column writes with '
               'their controlling tests (control dependence), variable/unit/data pairing by AST dataflow, interp1d call shape; '
-              'AST pairing rules for the export utility and the forwarding call',
+              'abstract evaluation of the export utility\'s column statements per variable (label string, cell as a canonical '
+              'term over the generic sample with symbolic unit factors), of the snapshot admission test and of the predeclared '
+              'column list; AST rule for the forwarding call',
     text='Every snapshot column is written under the membership test of its own variable only, converted and labelled with its '
          'own unit parameter, filled from its own recorded list, interpolated linearly with abscissae and query in seconds, and '
          'snapshot keeps no cached state; export pairs label, conversion unit and data per variable, writes the time column in '
-         'time_unit without index, and the powertrain-level export forwards each unit to the same-named parameter. '
-         'Numeric interpolation results are not decided.', design='4/C18', engine='ast')
+         'time_unit without index (every sample converted on its own), and the powertrain-level export forwards each unit to the '
+         'same-named parameter; every instant of the simulated interval, first and last included, is admitted; the frame is created '
+         'with exactly the labels the writes use. '
+         'Numeric interpolation results are not decided.', design='4/C18', engine='ast + sa.sx')
 
 CHECKS['C07'] = dict(
     technique='units-of-measure analysis with symbolic unit factors: every evaluable function of the package (329) and every '
